@@ -215,8 +215,18 @@ class InitFlow:
                         if ks is None:
                             raise AnalysisError(f"{fr.fn.qualname}: non-literal key written to _params")
                         items[ks] = [(fr, n.value)]
+            elif isinstance(n, ast.Delete):
+                for t in n.targets:
+                    if isinstance(t, ast.Subscript) and is_self_attr(t.value, "_params"):
+                        ks = const_str(t.slice)
+                        if ks is None:
+                            raise AnalysisError(f"{fr.fn.qualname}: del _params[<non-literal>]")
+                        items.pop(ks, None)
             elif isinstance(n, ast.Call) and isinstance(n.func, ast.Attribute) and is_self_attr(n.func.value, "_params"):
-                if n.func.attr == "update" and n.args:
+                if n.func.attr == "update" and not n.args and n.keywords and all(kw.arg for kw in n.keywords):
+                    for kw in n.keywords:
+                        items[kw.arg] = [(fr, kw.value)]
+                elif n.func.attr == "update" and n.args:
                     d = n.args[0]
                     if isinstance(d, ast.Dict):
                         for k, v in zip(d.keys, d.values):
